@@ -17,7 +17,7 @@ RULE = ('seeded generation per family (filter callable/equals/not_equals with se
         'kept fields, regex on/off) x 1..3 resources x 0..60 rows; distinct = case hash; non-trivial = '
         'reference output differs from the input and is non-empty')
 ASSUMPTIONS = [
-    'unpivot patterns are generated so that they cannot match the empty string (re.sub and fullmatch agree)',
+    'unpivot keys are derived from the same full match that selected the field (match.expand of the key template)',
     'primary-key values are hashable (scalars, None)',
     'filter with neither condition nor equals/not_equals is not generated',
 ]
@@ -94,10 +94,10 @@ def run_case(case):
         specs = []
         kinds = []
         for _ in range(rng.randint(1, 3)):
-            k = rng.choice(['lit', 'year_re', 'y_re', 'const', 'nomatch', 'dotlit'])
+            k = rng.choice(['lit', 'year_re', 'y_re', 'const', 'nomatch', 'dotlit', 'alt_g0', 'lazy', 'lookahead_rest'])
             kinds.append(k)
             if not regex:
-                k = 'lit' if k in ('year_re', 'y_re') else k
+                k = 'lit' if k in ('year_re', 'y_re', 'alt_g0', 'lazy', 'lookahead_rest') else k
             if k == 'lit':
                 nm = rng.choice(pivots)
                 specs.append({'name': nm if not regex else nm.replace('.', r'\.'),
@@ -106,6 +106,14 @@ def run_case(case):
                 specs.append({'name': r'x([0-9]{4})', 'keys': {'k1': r'\1', 'k2': r'y\g<1>!'}})
             elif k == 'y_re':
                 specs.append({'name': r'(y)_(\d)', 'keys': {'k1': r'\2\1', 'k2': None}})
+            elif k == 'alt_g0':
+                # alternation whose first alternative is a proper prefix of a later one; whole-match back-reference
+                specs.append({'name': r'y|y_1|y_2|total', 'keys': {'k1': r'<\g<0>>', 'k2': 2}})
+            elif k == 'lazy':
+                specs.append({'name': r'(x.*?)(\d*)', 'keys': {'k1': r'\1', 'k2': r'[\2]'}})
+            elif k == 'lookahead_rest':
+                # can match the empty string (selection is by full match; keys are derived from that same match)
+                specs.append({'name': r'(?!id$|name$|grp$|tags$)(.*)', 'keys': {'k1': r'col:\1', 'k2': 'survey'}})
             elif k == 'const':
                 specs.append({'name': 'total', 'keys': {'k1': 'T', 'k2': 1.5}})
             elif k == 'dotlit':
@@ -170,6 +178,10 @@ def run_case(case):
             pk = rng.choice([['b'], ['s'], ['s', 'b'], ['n'], ['d', 'b'], ['id'], [], ['b', 's', 'n']])
             twice = rng.random() < 0.5
             pre = [d.set_primary_key(list(pk))]
+            if len(pk) == 1 and rng.random() < 0.35:
+                # Table Schema also allows a single field name (a string) as primaryKey
+                pre = [d.update_schema(None, primaryKey=pk[0])]
+                cov['config']['dedup/primaryKey_given_as_string'] = 1
             step = d.deduplicate(resources=copy.deepcopy(selector))
             cfg = {'pk': pk, 'twice': twice}
             cov['config']['dedup/pk%d%s' % (len(pk), '/twice' if twice else '')] = 1
